@@ -30,6 +30,7 @@ var hostAlpha = []hostClass{
 	{"example.com", true}, {"sub.example.com", true}, {"*.example.com", true},
 	{"", false}, {"localhost", false}, {"a.localhost", false}, {"127.0.0.1", false}, {"10.0.0.1", false}, {"192.168.1.1", false}, {"[::1]", false},
 	{"a.local", false}, {"a.test", false}, {"a.example", false}, {"a.invalid", false},
+	{"127.example.com", true}, // a public name that merely begins like a loopback address
 	// deeper names and wildcards under the internal-only suffixes
 	{"app.staging.test", false}, {"www.shop.example", false}, {"a.b.c.invalid", false}, {"*.dev.test", false}, {"x.y.localhost", false}, {"a.b.local", false},
 }
@@ -46,11 +47,14 @@ type addrSpec struct {
 	scheme, host, port string
 	publicDNS          bool
 	tl                 tlsLine
+	portText           string // the port as written, when that differs from the number (080)
 }
 
 func (a addrSpec) String() string {
 	s := a.scheme + a.host
-	if a.port != "" {
+	if a.portText != "" {
+		s += ":" + a.portText
+	} else if a.port != "" {
 		s += ":" + a.port
 	}
 	return s
@@ -160,7 +164,10 @@ func main() {
 					continue // an address needs a host or a port
 				}
 				for _, tl := range tlsLines {
-					addrs = append(addrs, addrSpec{sc, h.host, port, h.publicDNS, tl})
+					addrs = append(addrs, addrSpec{sc, h.host, port, h.publicDNS, tl, ""})
+					if port == "80" && h.host == "example.com" {
+						addrs = append(addrs, addrSpec{sc, h.host, port, h.publicDNS, tl, "080"}) // the same port with a leading zero
+					}
 				}
 			}
 		}
@@ -307,41 +314,42 @@ func main() {
 			if strings.HasPrefix(host, "[") {
 				continue // IPv6 literals are outside the routing alphabet (see C01)
 			}
-			reqHost := host
-			if reqHost == "" {
-				reqHost = "anything.example.org"
+			reqHosts := []string{strings.Replace(host, "*", "w", 1)}
+			if host == "" {
+				reqHosts = []string{"anything.example.org", "[2001:db8::3]"} // a catch-all redirect site also sees IPv6 literals
 			}
-			reqHost = strings.Replace(reqHost, "*", "w", 1)
 			wantPort := mine.cfg.Addr.Port
-			for _, hostHdr := range []string{reqHost, net.JoinHostPort(strings.Trim(reqHost, "[]"), "80")} {
-				for _, uri := range []string{"/", "/a/b?x=1&y=2", "/%2F?", "//x"} {
-					rec, pv, err := kit.Serve(rs.srv, kit.Get("GET", uri, hostHdr))
-					if err != nil {
-						continue
-					}
-					rep.Eval(1)
-					if pv != nil {
-						rep.Violation("C15/panic", fmt.Sprint(pv), c15case{cf, a.String(), "", ""})
-						continue
-					}
-					h := strings.Trim(reqHost, "[]")
-					want := "https://" + reqHost
-					if wantPort != "443" {
-						want = "https://" + net.JoinHostPort(h, wantPort)
-					}
-					want += uri
-					loc := rec.Snap.Get("Location")
-					if rec.Status != 301 || loc != want {
-						kind := "wrong-redirect-target"
-						if a.port == "" && !t.Managed {
-							kind = "wrong-redirect-target/unmanaged-tls-site-on-the-default-port"
+			for _, reqHost := range reqHosts {
+				for _, hostHdr := range []string{reqHost, net.JoinHostPort(strings.Trim(reqHost, "[]"), "80")} {
+					for _, uri := range []string{"/", "/a/b?x=1&y=2", "/%2F?", "//x"} {
+						rec, pv, err := kit.Serve(rs.srv, kit.Get("GET", uri, hostHdr))
+						if err != nil {
+							continue
 						}
-						if strings.HasPrefix(loc, "http://") || strings.Contains(loc, ":80/") || strings.HasSuffix(loc, ":80") {
-							kind = "redirect-points-back-at-http"
+						rep.Eval(1)
+						if pv != nil {
+							rep.Violation("C15/panic", fmt.Sprint(pv), c15case{cf, a.String(), "", ""})
+							continue
 						}
-						rep.Violation("C15/"+kind, fmt.Sprintf("redirect site for %s answered %d Location %q to Host %q URI %q", a, rec.Status, loc, hostHdr, uri), c15case{cf, a.String(), fmt.Sprintf("%d %s", rec.Status, loc), "301 " + want})
+						h := strings.Trim(reqHost, "[]")
+						want := "https://" + reqHost
+						if wantPort != "443" {
+							want = "https://" + net.JoinHostPort(h, wantPort)
+						}
+						want += uri
+						loc := rec.Snap.Get("Location")
+						if rec.Status != 301 || loc != want {
+							kind := "wrong-redirect-target"
+							if a.port == "" && !t.Managed {
+								kind = "wrong-redirect-target/unmanaged-tls-site-on-the-default-port"
+							}
+							if strings.HasPrefix(loc, "http://") || strings.Contains(loc, ":80/") || strings.HasSuffix(loc, ":80") {
+								kind = "redirect-points-back-at-http"
+							}
+							rep.Violation("C15/"+kind, fmt.Sprintf("redirect site for %s answered %d Location %q to Host %q URI %q", a, rec.Status, loc, hostHdr, uri), c15case{cf, a.String(), fmt.Sprintf("%d %s", rec.Status, loc), "301 " + want})
+						}
+						rep.Class("redirect-checked")
 					}
-					rep.Class("redirect-checked")
 				}
 			}
 		}
